@@ -3,6 +3,7 @@ Line-protocol driver: one request per line on stdin, one canonical answer per li
 Imports only the (Mathlib-free) models, so it links as a `lean_exe`.
 -/
 import Driver.Text
+import Aldrin.Model.Msg
 
 namespace Aldrin.Driver
 open Aldrin
@@ -65,13 +66,26 @@ def codecCmd (cmd : String) (args : List String) : Option String :=
     pure (if validUtf8 bs then "ok 1" else "ok 0")
   | _, _ => none
 
+def msgCmd (cmd : String) (args : List String) : Option String :=
+  match cmd, args with
+  | "frame", [h] => do
+    let fr ← ofHex h
+    pure (match decodeFrame fr with
+      | .error e => "err " ++ errName e
+      | .ok r => match encodeFrame r with
+        | .ok fr' => "ok " ++ toHex fr'
+        | .error _ => "ok unserializable")
+  | _, _ => none
+
 def step (line : String) : String :=
   match (line.trimAscii.toString.splitOn " ").filter (· ≠ "") with
   | [] => "bad-op"
   | cmd :: args =>
     match codecCmd cmd args with
     | some out => out
-    | none => "bad-op"
+    | none => match msgCmd cmd args with
+      | some out => out
+      | none => "bad-op"
 
 partial def loop (h : IO.FS.Stream) (out : IO.FS.Stream) : IO Unit := do
   let line ← h.getLine
